@@ -10,6 +10,11 @@ namespace Gonnx.C11
 open Gonnx
 variable {α β : Type}
 
+-- concrete instance shared by the non-vacuity examples below: an elementwise conversion that wraps to
+-- 8 bits for the target uint8, a 2×3 tensor with values inside and outside that range
+private def nv_conv : DType → DType → Int → Int := fun _ tgt v => if tgt = .u8 then v % 256 else v
+private def nv_t : Tensor Int := ⟨[2, 3], [1, -2, 300, 4, 255, 256]⟩
+
 /-- **Cast**: for each of the ten numeric target codes and every numeric source type the result has
 the target type, the input's shape, and every element is the conversion of the input element -/
 theorem cast_ok (conv : DType → DType → α → β) (src : DType) (to : Int) (t : Tensor α) (tgt : DType)
@@ -19,6 +24,11 @@ theorem cast_ok (conv : DType → DType → α → β) (src : DType) (to : Int) 
   unfold castOp
   rw [if_neg hsc]
   simp [hs, ht]
+
+-- non-vacuity: int32 → uint8 (code 2) on the 2×3 tensor
+example : castOp nv_conv .i32 2 nv_t = .ok (.u8, nv_t.map (nv_conv .i32 .u8)) :=
+  cast_ok nv_conv .i32 2 nv_t .u8 rfl rfl (by decide)
+example : nv_t.map (nv_conv .i32 .u8) = ⟨[2, 3], [1, 254, 44, 4, 255, 0]⟩ := by decide
 
 theorem cast_shape_get [Inhabited α] [Inhabited β] (conv : DType → DType → α → β) (src : DType) (to : Int) (t : Tensor α)
     (tgt : DType) (out : Tensor β) (h : castOp conv src to t = .ok (tgt, out)) (hW : t.WF) :
@@ -41,6 +51,11 @@ theorem cast_shape_get [Inhabited α] [Inhabited β] (conv : DType → DType →
         rw [← hW] at hlt
         simp [Tensor.get, Tensor.map, List.getD, List.getElem?_map, List.getElem?_eq_getElem hlt]
 
+-- non-vacuity: the same request, read back
+example : (⟨[2, 3], [1, 254, 44, 4, 255, 0]⟩ : Tensor Int).shape = nv_t.shape ∧ castTarget 2 = some .u8 ∧
+    ∀ idx, InRange idx nv_t.shape → (⟨[2, 3], [1, 254, 44, 4, 255, 0]⟩ : Tensor Int).get idx = nv_conv .i32 .u8 (nv_t.get idx) :=
+  cast_shape_get nv_conv .i32 2 nv_t .u8 ⟨[2, 3], [1, 254, 44, 4, 255, 0]⟩ (by decide) rfl
+
 /-- unsupported targets (bool, string, float16, bfloat16, complex, undefined, unknown codes) and
 non-numeric sources are refused with the conversion error -/
 theorem cast_refuses_target (conv : DType → DType → α → β) (src : DType) (to : Int) (t : Tensor α)
@@ -51,6 +66,10 @@ theorem cast_refuses_target (conv : DType → DType → α → β) (src : DType)
   split
   · rfl
   · simp [ht]
+
+-- non-vacuity: target code 9 (bool)
+example : castOp nv_conv .i32 9 nv_t = .error .conversion :=
+  cast_refuses_target nv_conv .i32 9 nv_t rfl (by decide)
 
 /-- the ten target codes are exactly the ONNX codes of the ten numeric element types -/
 theorem cast_targets : [1, 2, 3, 4, 5, 6, 7, 11, 12, 13].map castTarget =
@@ -63,6 +82,10 @@ theorem cast_scalar_unsigned_panics (conv : DType → DType → α → β) (to :
     castOp conv .u32 to t = .error .panic := by
   unfold castOp
   rw [if_pos ⟨h, rfl⟩]
+
+-- non-vacuity: the statement is about scalar tensors, so the instance is one
+example : castOp nv_conv .u32 1 ⟨[], [5]⟩ = .error .panic :=
+  cast_scalar_unsigned_panics nv_conv 1 ⟨[], [5]⟩ rfl
 
 /-- two's-complement / unsigned wrap of an integer to a `bits`-wide type -/
 def wrapInt (bits : Nat) (signed : Bool) (v : Int) : Int :=
@@ -102,6 +125,10 @@ theorem wrapInt_representable (bits : Nat) (hb : 0 < bits) (signed : Bool) (v : 
       simp
       omega
 
+-- non-vacuity: −100 in int8, 40000 in uint16
+example : wrapInt 8 true (-100) = -100 := wrapInt_representable 8 (by decide) true (-100) (by decide)
+example : wrapInt 16 false 40000 = 40000 := wrapInt_representable 16 (by decide) false 40000 (by decide)
+
 /-- **ConstantOfShape**: every requested extent ≥ 1 ⇒ a tensor of exactly the requested shape whose
 elements all equal the value; a zero or negative extent ⇒ error -/
 theorem constantOfShape_ok (zeroPlus : α → α) (value : α) (shape : List Int) (h : ∀ d ∈ shape, 1 ≤ d) :
@@ -119,6 +146,11 @@ theorem constantOfShape_ok (zeroPlus : α → α) (value : α) (shape : List Int
   · intro x hx
     exact (List.mem_replicate.1 hx).2
 
+-- non-vacuity: shape 2×3, value 7
+example : ∃ t, constantOfShapeOp (fun v : Int => 0 + v) 7 [2, 3] = .ok t ∧ t.shape = [2, 3].map Int.toNat ∧ t.WF ∧
+      ∀ x ∈ t.data, x = (fun v : Int => 0 + v) 7 :=
+  constantOfShape_ok (fun v : Int => 0 + v) 7 [2, 3] (by decide)
+
 theorem constantOfShape_refuses (zeroPlus : α → α) (value : α) (shape : List Int) (d : Int) (hd : d ∈ shape) (h0 : d ≤ 0) :
     constantOfShapeOp zeroPlus value shape = .error .invalidTensor := by
   have hany : shape.any (· ≤ 0) = true := by
@@ -126,5 +158,9 @@ theorem constantOfShape_refuses (zeroPlus : α → α) (value : α) (shape : Lis
     exact ⟨d, hd, by simpa using h0⟩
   unfold constantOfShapeOp
   simp only [hany, if_true]
+
+-- non-vacuity: a zero extent in the middle
+example : constantOfShapeOp (fun v : Int => 0 + v) 7 [2, 0, 3] = .error .invalidTensor :=
+  constantOfShape_refuses _ 7 [2, 0, 3] 0 (by decide) (by decide)
 
 end Gonnx.C11
